@@ -13,14 +13,7 @@ def regen(ctx):
     if rc != 0 or not os.path.exists(tmp):
         fails.append({"kind": "translator", "detail": "translate-safemath failed (source outside the supported subset?):\n" + checklib.tail(log, 20)})
         return fails
-    new = open(tmp).read()
-    with checklib.LakeLock():
-        old = open(out).read() if os.path.exists(out) else None
-        if old != new:
-            if os.path.exists(out):
-                os.remove(out)
-            open(out, "w").write(new)
-            ctx.notes.append("generated model differs from the committed copy: theorems re-checked against the regenerated definitions")
+    checklib.write_gen(ctx, out, open(tmp).read())
     ctx.notes.append("regenerated Hive/Gen/C19_SafeMath.lean from " + src)
     return fails
 
